@@ -1,4 +1,5 @@
 import STProofs.CubicKKT
+import STProofs.Hermite
 /-!
 # C01 — interpolation, boundary states (property theorems)
 
